@@ -353,3 +353,53 @@ def npFloor (x : Rat) : Int := x.floor
 def pyIntTrunc (x : Rat) : Int := if 0 ≤ x then x.floor else -((-x).floor)
 
 end MsmVerif.Gen
+
+/-! ### complex doubles with NaN (`implied_timescales`, the eigen-solver wrappers of `msm/utils/linalg.py`) -/
+
+/-- a complex double, or NaN (`none`); a real number is `(re, 0)`.  Exact rationals stand for the doubles. -/
+abbrev Cx := Option (Rat × Rat)
+
+def cxNan : Cx := none
+
+def cxOfRat (r : Rat) : Cx := some (r, 0)
+
+/-- numpy orders complex numbers lexicographically (real part first); every comparison with NaN is false -/
+def cxLt (a b : Cx) : Bool :=
+  match a, b with
+  | some (ar, ai), some (br, bi) => decide (ar < br ∨ (ar = br ∧ ai < bi))
+  | _, _ => false
+
+def cxLe (a b : Cx) : Bool :=
+  match a, b with
+  | some (ar, ai), some (br, bi) => decide (ar < br ∨ (ar = br ∧ ai ≤ bi))
+  | _, _ => false
+
+def cxGt (a b : Cx) : Bool := cxLt b a
+
+def cxGe (a b : Cx) : Bool := cxLe b a
+
+/-- `np.real` (NaN stays NaN) -/
+def cxReal (a : Cx) : Cx := a.map (fun z => (z.1, 0))
+
+/-- one entry of `np.ma.divide(a, z).filled(nan)` for a real `a`: the exact complex quotient; masked — hence NaN after `filled` — where the divisor is
+NaN (the quotient is not finite) or zero (outside the domain of the division) -/
+def cxDivReal (a : Rat) (z : Cx) : Cx :=
+  match z with
+  | some (x, y) => if x = 0 ∧ y = 0 then none else some (a * x / (x * x + y * y), -(a * y) / (x * x + y * y))
+  | none => none
+
+def npMaDivideFilledNan (a : Rat) (zs : List Cx) : List Cx := zs.map (cxDivReal a)
+
+/-- tolerance of `np.real_if_close` with its default `tol=100`: 100 machine epsilons -/
+def npRealIfCloseTol : Rat := 100 / 4503599627370496
+
+def cxImagSmall (z : Cx) : Bool :=
+  match z with
+  | some (_, y) => decide ((if y < 0 then -y else y) < npRealIfCloseTol)
+  | none => false
+
+/-- `np.real_if_close` of a 1-d array: the real parts if ALL imaginary parts are below the tolerance, the array itself otherwise -/
+def npRealIfClose1 (zs : List Cx) : List Cx := if zs.all cxImagSmall then zs.map cxReal else zs
+
+def npRealIfClose2 (m : List (List Cx)) : List (List Cx) :=
+  if m.all (fun r => r.all cxImagSmall) then m.map (fun r => r.map cxReal) else m
